@@ -7,7 +7,7 @@ from kfv.rules import dist_rules as D
 
 NEEDS_TYPES = False
 TECHNIQUE = ('typestate of the bucket binding in allreduce_bucketed, normal form of the overflow test, injectivity rule on the bucket key, '
-             'pairing of tensor/future lists, sibling agreement of the post-processing callbacks, loop-exit analysis of flush')
+             'pairing of tensor/future lists, sibling agreement of the post-processing callbacks, loop-exit analysis of flush; identity of the stored tensor in add_tensor; configuration forwarding of allreduce_method')
 EXPLANATION = (
     'kfac/distributed.py is analysed structurally: the key of the open-bucket table must determine the communicator (derived from '
     'the ranks of the group, the bucket built for that group); the binding holding the bucket follows the automaton '
@@ -15,7 +15,7 @@ EXPLANATION = (
     'test is size + incoming > cap in polynomial normal form and precedes the add; tensors and futures are appended pairwise and '
     'resolved by one zip over flatten/unflatten; the bucketed callback equals the unbucketed one; flush visits every entry with no '
     'early exit and resets it; single-member groups return first.  Mixed-dtype buckets are reported by BKT-DTYPE (known finding F8). '
-    'Value equality and torch\'s flatten/unflatten are not decided.')
+    'Value equality and torch\'s flatten/unflatten are not decided. add_tensor stores the tensor it was given (no dtype conversion); the bucketing choice reaches every layer (CFG-FWD).')
 
 NOT_DECIDED = 'value equality; unflatten(flatten(x)) = x (torch)'
 
